@@ -393,6 +393,37 @@ pub fn run(cmd: &str, args: &[&str]) -> String {
             }
             outs.join(" || ")
         }
+        ("stoptest", [seed, delay_ms, mode, fen]) => {
+            // the public entry point on its own threads: send Stop after a delay (or drop the receiver / stop twice),
+            // and report how long the join took
+            use rand::SeedableRng;
+            use weechess_engine::searcher::{verif, ControlEvent, Searcher, StatusEvent};
+            let Some(st) = state_of(fen) else { return "badfen".into() };
+            let mut r0 = rand_chacha::ChaCha8Rng::seed_from_u64(99);
+            let artifact = verif::small_artifact(&mut r0, 8, 4096);
+            let depth: Option<usize> = if mode.contains("depth3") { Some(3) } else { None };
+            let (handle, tx, rx) = Searcher::new().analyze(st, seed.parse().unwrap(), weechess_engine::eval::Evaluator::default(), depth, Some(artifact));
+            let delay: u64 = delay_ms.parse().unwrap();
+            let mut rx = Some(rx);
+            if mode.contains("drop") { rx = None; }
+            std::thread::sleep(std::time::Duration::from_millis(delay));
+            let t0 = std::time::Instant::now();
+            if !mode.contains("nostop") { let _ = tx.send(ControlEvent::Stop); }
+            if mode.contains("twice") { let _ = tx.send(ControlEvent::Stop); }
+            // join with a watchdog
+            let (dtx, drx) = std::sync::mpsc::channel();
+            std::thread::spawn(move || { let r = handle.join(); let _ = dtx.send(r.is_ok()); });
+            let res = drx.recv_timeout(std::time::Duration::from_secs(20));
+            let ms = t0.elapsed().as_millis();
+            let _ = tx.send(ControlEvent::Stop);
+            let mut best = 0usize;
+            if let Some(rx) = rx { while let Ok(e) = rx.try_recv() { if let StatusEvent::BestMove { .. } = e { best += 1; } } }
+            match res {
+                Ok(true) => format!("joined {} best={}", ms, best),
+                Ok(false) => "search-thread-panicked".into(),
+                Err(_) => format!("NOT-JOINED-after-20s best={}", best),
+            }
+        }
         ("jitter", [seed, n]) => {
             use rand::{Rng, RngCore, SeedableRng};
             let mut rng = rand_chacha::ChaCha8Rng::seed_from_u64(seed.parse().unwrap());
